@@ -1,5 +1,6 @@
 import Driver.Chess
 import Driver.Engine
+import Driver.SearchOps
 open Driver
 
 def dispatch (line : String) : String :=
@@ -24,6 +25,8 @@ def dispatch (line : String) : String :=
     else if op = "time" then opTime args
     else if op = "go" then opGo args
     else if op = "prep" then opPrep args
+    else if op = "search" then opSearch args
+    else if op = "judge" then opJudge args
     else "bad-op"
 
 partial def loop (hin hout : IO.FS.Stream) : IO Unit := do
